@@ -54,7 +54,7 @@ Encs       == {"plain", "aes256gcm", "aes128gcm", "chacha20"}
 Sids       == {"zero", "mid", "max"}      \* mid is not a byte palindrome
 Sigs       == {"chrome", "firefox", "safari"}
 Transports == {"direct", "cdn"}
-Snis       == {"fixed", "random"}
+Snis       == {"fixed", "random", "address"}   \* "address": ServerName is an IP literal, the ClientHello carries no server_name (RFC 6066)
 
 TamperClasses(tr) ==
   {"randsig",  \* bits 96..254 of the 32-byte random: change the X25519 point
